@@ -54,18 +54,21 @@ def build_pkg(ctx, schema_name, schema_files, config_name, must=True):
             raise core.CheckBroken(msg)
         ctx.note(msg[:400])
         return None
-    return Pkg(name, schema_name, config_name, out_rel, imp, b)
+    pk = Pkg(name, schema_name, config_name, out_rel, imp, b)
+    pk.files = files
+    return pk
 
 
-def run_mode(ctx, pkg, mode, env=None, timeout=1800, mem_gb=6, what=None, max_restarts=12, fill_death_is_violation=False, reclass=None):
+def run_mode(ctx, pkg, mode, env=None, timeout=1800, mem_gb=6, what=None, max_restarts=12, fill_death_is_violation=False, reclass=None, advisory_deaths=(), resume=False):
     """runs one harness mode in journaled children; a child death is attributed to the last journaled item,
     reported, and the run resumes without that item. Returns (counters, extra events)."""
     what = what or ("%s on %s/%s" % (mode, pkg.schema, pkg.config))
     skip = []
     tot = {}
     extra = []
+    resume_after = ""
     for attempt in range(max_restarts + 1):
-        e = {"VERIF_MODE": mode, "VERIF_SEED": str(ctx.seed), "VERIF_SCHEMA": pkg.schema, "VERIF_CONFIG": pkg.config,
+        e = {"VERIF_RESUME_AFTER": resume_after, "VERIF_RESUMABLE": "1" if resume else "", "VERIF_MODE": mode, "VERIF_SEED": str(ctx.seed), "VERIF_SCHEMA": pkg.schema, "VERIF_CONFIG": pkg.config,
              "VERIF_SKIP_ITEMS": ",".join(skip), "VERIF_SANITY": "1" if CONFIGS[pkg.config].get("sanity", True) else "0"}
         if env:
             e.update({k: str(v) for k, v in env.items()})
@@ -76,7 +79,7 @@ def run_mode(ctx, pkg, mode, env=None, timeout=1800, mem_gb=6, what=None, max_re
         for ev in events:
             if ev.get("t") == "journal":
                 last = ev
-            elif ev.get("t") not in ("violation", "summary", "note", "inconclusive"):
+            elif ev.get("t") not in ("violation", "summary", "summary-partial", "note", "inconclusive"):
                 extra.append(ev)
         vevents = [ev for ev in events if ev.get("t") in ("violation", "note", "inconclusive")]
         if reclass:
@@ -99,6 +102,10 @@ def run_mode(ctx, pkg, mode, env=None, timeout=1800, mem_gb=6, what=None, max_re
             # the value generator (generated FillRandom) died: that is C18's property, here the item is just not covered
             ctx.note("%s: FillRandom of %s killed the child (%s); item skipped (decided by C18)" % (what, item, cls))
             ctx.cov.setdefault("counters", {})["items_skipped_because_fillrandom_dies"] = ctx.cov.get("counters", {}).get("items_skipped_because_fillrandom_dies", 0) + 1
+        elif last and any(str(last.get("what", "")).startswith(a) for a in advisory_deaths):
+            ctx.note("%s: child died (%s) at '%s' of item %s: outside the property, item skipped" % (what, cls, last.get("what"), item))
+            c = ctx.cov.setdefault("counters", {})
+            c["advisory_child_deaths"] = c.get("advisory_child_deaths", 0) + 1
         elif not r.timed_out or item:
             ctx.violation({"oracle": "child-died", "class": cls if not r.timed_out else "timeout", "item": item, "variant": last.get("variant", "") if last else "",
                            "schema": pkg.schema, "config": pkg.config, "what": last.get("what", "") if last else ""},
@@ -106,7 +113,20 @@ def run_mode(ctx, pkg, mode, env=None, timeout=1800, mem_gb=6, what=None, max_re
                           {"tail.txt": tail})
         if not item or item in skip:
             break
-        skip.append(item)
+        if resume:
+            # the run goes on after the dying item; what the dead child had counted up to the previous item is kept
+            partial = [ev for ev in events if ev.get("t") == "summary-partial"]
+            if partial:
+                t = inpkg.merge_counters(ctx, partial[-1:])
+                for k, v in t.items():
+                    tot[k] = tot.get(k, 0) + v
+            c = ctx.cov.setdefault("counters", {})
+            c["items_abandoned_after_child_death"] = c.get("items_abandoned_after_child_death", 0) + 1
+            if item <= resume_after:
+                break
+            resume_after = item
+        else:
+            skip.append(item)
     return tot, extra
 
 
